@@ -76,6 +76,13 @@ def worker_init() -> None:
         def __init__(self, st: dict[str, Any]) -> None:
             super().__init__(G["TargetURI"]("script://x"))
             self.st = st
+            self.gen = st.setdefault("gen", 0)  # reconnect() returns a new instance; the old one is dead afterwards
+
+        def _alive(self, what: str) -> None:
+            if self.gen != self.st["gen"]:
+                self.st["log"].append((what + "@stale", asyncio.get_running_loop().time()))
+                self.st["stale_ops"] = self.st.get("stale_ops", 0) + 1
+                raise BrokenPipeError(32, "transport instance was replaced by reconnect()")
 
         @classmethod
         async def connect(cls, target: Any, timeout: float | None = None) -> Any:
@@ -90,6 +97,7 @@ def worker_init() -> None:
             await asyncio.sleep(0)
             if st["reconnect_fails"]:
                 raise ConnectionRefusedError(111, "refused")
+            st["gen"] += 1
             return ScriptTransport(st)
 
         def _next(self) -> str:
@@ -104,6 +112,7 @@ def worker_init() -> None:
             return tail[(i - len(st["script"])) % len(tail)]
 
         async def write(self, data: bytes, timeout: float | None = None, tags: Any = None) -> int:
+            self._alive("write")
             st = self.st
             now = asyncio.get_running_loop().time()
             # a W event is consumed by the write that it breaks
@@ -118,6 +127,7 @@ def worker_init() -> None:
             return len(data)
 
         async def read(self, timeout: float | None = None, tags: Any = None) -> bytes:
+            self._alive("read")
             st = self.st
             now = asyncio.get_running_loop().time()
             ev = self._next()
@@ -408,6 +418,9 @@ def judge(item: tuple[Any, ...], out: dict[str, Any], res: Result) -> None:
                     rp,
                 )
                 break
+    stale = [e for e in log if isinstance(e[0], str) and e[0].endswith("@stale")]
+    if stale:
+        res.violate(f"C04|stale-transport-used|{stale[0][0]}", f"{stale[0][0]}: the client used the transport instance that reconnect() had replaced {where}", rp)
     if not out["mutex_free"]:
         res.violate(f"C04|mutex-held|{shape()}", f"client mutex still held after the request {where}", rp)
     res.count("transitions", len(log))
